@@ -55,7 +55,9 @@ def fixed_cases(tier):
         out.append({"spec": spec, "base": S.simple_config([]), "mods": [1, 6], "seed": 0})      # table, table_range
     # name-table matrix (total name bytes on / next to 2^8 and 2^16) and run-length matrix, match and table
     for spec in C.name_table_specs():
-        out.append({"spec": spec, "base": S.simple_config([]), "mods": [0, 1], "seed": 2})
+        out.append({"spec": spec, "base": S.simple_config([]), "mods": [0, 1], "seed": 2, "all_idxs": len(spec["variants"]) <= 100})
+    for spec in C.tied_run_specs():
+        out.append({"spec": spec, "base": S.simple_config([]), "mods": [1, 6, 7], "seed": 4, "all_idxs": True})
     for spec in C.run_length_specs({(64, 64), (65, 64), (1, 64), (128, 128), (256, 63), (257, 65)}):
         out.append({"spec": spec, "base": S.simple_config([]), "mods": [1, 6], "seed": 3})
     return out
@@ -66,7 +68,7 @@ def run_case(case):
     spec = case["spec"]
     m = M.RefEnum(spec)
     rnd = J.case_rng(case)
-    idxs = C.pick_idxs(m, rnd)
+    idxs = list(range(m.n)) if case.get("all_idxs") else C.pick_idxs(m, rnd)
     sc = E.Script()
     modules = []
     table_like = False
